@@ -22,6 +22,6 @@ PROP = {
         {"name": "main", "post": _post},
         # zlib-rs deflate/inflate/crc32 `unsafe` under the exact call pattern noodles uses
         {"name": "asan", "variant": "asan", "args": ["inproc=1", "cases=300"], "tiers": ("thorough",), "optional": True, "timeout": 3600},
-        {"name": "miri", "variant": "miri", "args": ["inproc=1", "tiny=14"], "tiers": ("thorough",), "optional": True, "timeout": 7200},
+        {"name": "miri", "variant": "miri", "args": ["inproc=1", "tiny=10"], "tiers": ("thorough",), "optional": True, "timeout": 7200},
     ],
 }
